@@ -477,3 +477,170 @@ def gen_struct_faults(rng, data, n=1, reseal_p=0.5, kinds=None):
     for recs in out:
         flat.extend(recs)
     return flat, [recs[0]["what"] for recs in out if recs]
+
+
+# ----------------------------------------------------------------------------- allocation-summary faults (C05)
+def gen_summary_faults(rng, data, n=1):
+    """Faults confined to allocation summaries and checksum fields: bitmap bits, free/used counts in
+    descriptors and superblock, descriptor flags, bg_itable_unused, and the checksum *fields* of
+    otherwise intact metadata objects.  No file content, inode field (other than its checksum),
+    directory entry or mapping is touched."""
+    fs = RefFS(data=bytes(data))
+    bs = fs.block_size
+    out = []
+    live = None
+    tries = 0
+    while len(out) < n and tries < 40:
+        tries += 1
+        s = Sealer(data, fs)
+        kind = rng.weighted([("bbitmap", 5), ("ibitmap", 3), ("gd_count", 4), ("gd_flags", 2), ("itable_unused", 2),
+                             ("gd_csum", 2), ("bitmap_csum", 2), ("sb_count", 2), ("sb_csum", 1), ("inode_csum", 3),
+                             ("dir_csum", 2), ("extent_csum", 1), ("xattr_csum", 1)])
+        seal = rng.chance(0.5)
+        what = cls = None
+        try:
+            g = rng.below(fs.group_count)
+            gd = fs.group_desc(g)
+            goff = gd["offset"]
+            if kind in ("bbitmap", "ibitmap"):
+                blk = gd["bg_block_bitmap"] if kind == "bbitmap" else gd["bg_inode_bitmap"]
+                nbits = fs.clusters_per_group if kind == "bbitmap" else fs.inodes_per_group
+                bit = rng.below(nbits)
+                o = blk * bs + bit // 8
+                how = rng.below(3)
+                if how == 0:
+                    s.w(o, bytes([s.d[o] ^ (1 << (bit % 8))]))
+                    what, cls = "%s[%d] bit %d flipped" % (kind, g, bit), kind + ".bit"
+                else:
+                    ln = min(rng.choice([1, 2, 8, 32]), (nbits + 7) // 8 - bit // 8)
+                    s.w(o, (b"\0" if how == 1 else b"\xff") * ln)
+                    what, cls = "%s[%d] %d byte(s)@%d %s" % (kind, g, ln, bit // 8, "zeroed" if how == 1 else "set"), \
+                        kind + (".zero" if how == 1 else ".ones")
+                if seal:
+                    s.seal_bitmaps(g)
+            elif kind == "gd_count":
+                name, off = rng.choice([("bg_free_blocks_count_lo", 12), ("bg_free_inodes_count_lo", 14), ("bg_used_dirs_count_lo", 16)])
+                cur = s.u16(goff + off)
+                new = new_value(rng, cur, 2)
+                s.p16(goff + off, new)
+                if seal:
+                    s.seal_gd(g)
+                what, cls = "gd[%d].%s %d->%d" % (g, name, cur, new), "gd." + name
+            elif kind == "gd_flags":
+                cur = s.u16(goff + 18)
+                new = cur ^ rng.choice([1, 2, 4])
+                s.p16(goff + 18, new)
+                if seal:
+                    s.seal_gd(g)
+                what, cls = "gd[%d].bg_flags %#x->%#x" % (g, cur, new), "gd.bg_flags"
+            elif kind == "itable_unused":
+                cur = s.u16(goff + 28)
+                new = rng.choice([0, fs.inodes_per_group, max(0, cur - 1), min(0xFFFF, cur + 1), rng.below(fs.inodes_per_group + 1)])
+                if new == cur:
+                    new = cur ^ 1
+                s.p16(goff + 28, new)
+                if seal:
+                    s.seal_gd(g)
+                what, cls = "gd[%d].bg_itable_unused %d->%d" % (g, cur, new), "gd.bg_itable_unused"
+            elif kind == "gd_csum":
+                cur = s.u16(goff + 30)
+                s.p16(goff + 30, new_value(rng, cur, 2))
+                what, cls = "gd[%d].bg_checksum" % g, "gd.bg_checksum"
+            elif kind == "bitmap_csum":
+                off = rng.choice([24, 26] + ([56, 58] if fs.desc_size >= 64 else []))
+                cur = s.u16(goff + off)
+                s.p16(goff + off, new_value(rng, cur, 2))
+                if seal:
+                    s.seal_gd(g)
+                what, cls = "gd[%d] bitmap checksum field @%d" % (g, off), "gd.bitmap_csum"
+            elif kind == "sb_count":
+                name, off = rng.choice([("s_free_blocks_count_lo", 12), ("s_free_inodes_count", 16)])
+                cur = s.u32(1024 + off)
+                new = new_value(rng, cur, 4)
+                s.p32(1024 + off, new)
+                if seal:
+                    s.seal_super()
+                what, cls = "sb.%s %d->%d" % (name, cur, new), "sb." + name
+            elif kind == "sb_csum":
+                if not fs.csum:
+                    continue
+                cur = s.u32(1024 + 1020)
+                s.p32(1024 + 1020, new_value(rng, cur, 4))
+                what, cls = "sb.s_checksum", "sb.s_checksum"
+            else:
+                if not fs.csum:
+                    continue
+                if live is None:
+                    live = [(n_, i) for n_, i in fs.iter_inodes() if i.mode and i.links_count and not i.dtime
+                            and n_ >= fs.sb["s_first_ino"] or n_ == 2][:3000]
+                if not live:
+                    continue
+                ino, i = rng.choice(live)
+                ioff = fs.inode_loc(ino)
+                if kind == "inode_csum":
+                    off = 0x7C if (rng.chance(0.6) or fs.inode_size <= 128) else 0x82
+                    if off == 0x82 and s.u16(ioff + 0x80) < 4:
+                        off = 0x7C
+                    cur = s.u16(ioff + off)
+                    s.p16(ioff + off, new_value(rng, cur, 2))
+                    what, cls = "inode[%d] checksum field @%#x" % (ino, off), "inode.checksum"
+                elif kind == "dir_csum":
+                    dirs = [(n_, x) for n_, x in live if (x.mode & 0xF000) == 0x4000 and not (x.flags & 0x10000000)]
+                    if not dirs:
+                        continue
+                    ino, i = rng.choice(dirs)
+                    blocks = fs.dir_blocks(i)
+                    if not blocks:
+                        continue
+                    lblk, pblk = rng.choice(blocks)
+                    o = pblk * bs
+                    if bytes(s.d[o + bs - 12:o + bs - 4]) != b"\0\0\0\0\x0c\0\0\xde":
+                        continue      # an htree interior node: its checksum lives elsewhere; leave it alone
+                    cur = s.u32(o + bs - 4)
+                    s.p32(o + bs - 4, new_value(rng, cur, 4))
+                    what, cls = "dir inode[%d] lblk %d leaf checksum" % (ino, lblk), "dir.leaf_checksum"
+                elif kind == "extent_csum":
+                    cand = [(n_, x) for n_, x in live if (x.flags & 0x80000) and not (x.flags & 0x10000000)]
+                    rng.shuffle(cand)
+                    hit = False
+                    for ino, i in cand[:60]:
+                        _e, tree = fs.extents(i)
+                        if tree:
+                            blk = rng.choice(tree)
+                            o = blk * bs
+                            emax = s.u16(o + 4)
+                            co = o + 12 + 12 * emax
+                            cur = s.u32(co)
+                            s.p32(co, new_value(rng, cur, 4))
+                            what, cls = "inode[%d] extent block %d checksum" % (ino, blk), "extent_block.checksum"
+                            hit = True
+                            break
+                    if not hit:
+                        continue
+                else:
+                    cand = [(n_, x) for n_, x in live if x.file_acl]
+                    if not cand:
+                        continue
+                    ino, i = rng.choice(cand)
+                    o = i.file_acl * bs
+                    cur = s.u32(o + 0x10)
+                    s.p32(o + 0x10, new_value(rng, cur, 4))
+                    what, cls = "xattr block %d (inode %d) checksum" % (i.file_acl, ino), "xattr_block.checksum"
+        except (refext4.FormatError, struct.error, IndexError, KeyError):
+            continue
+        if not what or not s.touched:
+            continue
+        if seal and fs.csum and "checksum" not in cls and "csum" not in cls:
+            cls += "~sealed"
+            what += " (checksum re-sealed)"
+        out.append(s.faults(what, cls))
+        data = bytes(s.d)
+        try:
+            fs = RefFS(data=data)
+        except Exception:
+            break
+        live = None
+    flat = []
+    for recs in out:
+        flat.extend(recs)
+    return flat
